@@ -11,8 +11,8 @@
      ready_cq_count    = sim::RingState::ready_cq_count
      sync              = cqueue::CompletionQueue::sync
      promote_loop      = the `while i < inflight.len()` loop of sim::RingState::promote_ready
-     reorder           = `matured.shuffle(rng)`: the permutation is an ARGUMENT (a list of user_data
-                         values giving the order in which matured entries are to be queued)
+     reorder           = `matured.shuffle(rng)`: the permutation is an ARGUMENT (a list of (user_data,
+                         result) pairs giving the order in which matured entries are to be queued)
      promote           = sim::RingState::promote_ready
      exec              = sim::PendingApply::execute (exec_read / exec_write / exec_fsync, faults off)
      next              = <cqueue::CompletionQueue as Iterator>::next (pop_ready + execute)
@@ -170,18 +170,38 @@ Fixpoint promote_loop (fuel : nat) (now : N) (i : nat) (infl matured : list scqe
       end
   end.
 
-Fixpoint pick (u : N) (l : list scqe) : option (scqe * list scqe) :=
+(* The shuffle: `order` lists (user_data, result) pairs; matured entries are
+   queued in that order (each time the first entry with that user_data whose
+   effect is that error constant, else the first one that executes an operation),
+   entries not named keep their relative order at the end.  Every permutation
+   of a batch with distinct user_data is obtained by some `order`
+   (C18_proofs / Facts.reorder_onto).  The result component only serves to tell
+   apart entries that share a user_data (a cancelled entry and a live one). *)
+Definition is_err (z : Z) (c : scqe) : bool :=
+  match c_app c with AErr e => Z.eqb e z | _ => false end.
+Definition is_op (c : scqe) : bool :=
+  match c_app c with AErr _ => false | _ => true end.
+(* an entry whose effect is exactly the error constant z ... *)
+Definition exact (k : N * Z) (c : scqe) : bool := (c_ud c =? fst k) && is_err (snd k) c.
+(* ... else an entry that executes an operation (any result except -ECANCELED,
+   which only the cancellation constant produces) *)
+Definition loose (k : N * Z) (c : scqe) : bool :=
+  (c_ud c =? fst k) && is_op c && negb (Z.eqb (snd k) ECANCELED).
+
+Fixpoint pick_by (p : scqe -> bool) (l : list scqe) : option (scqe * list scqe) :=
   match l with
   | [] => None
-  | c :: r => if c_ud c =? u then Some (c, r)
-              else match pick u r with Some (x, r') => Some (x, c :: r') | None => None end
+  | c :: r => if p c then Some (c, r)
+              else match pick_by p r with Some (x, r') => Some (x, c :: r') | None => None end
   end.
 
-(* The shuffle: `order` lists user_data values; matured entries are queued in
-   that order (first entry with that user_data each time), entries not named
-   keep their relative order at the end.  Every permutation of a batch with
-   distinct user_data is obtained by some `order` (C18_proofs.reorder_onto). *)
-Fixpoint reorder (order : list N) (batch : list scqe) : list scqe :=
+Definition pick (k : N * Z) (l : list scqe) : option (scqe * list scqe) :=
+  match pick_by (exact k) l with
+  | Some x => Some x
+  | None => pick_by (loose k) l
+  end.
+
+Fixpoint reorder (order : list (N * Z)) (batch : list scqe) : list scqe :=
   match order with
   | [] => batch
   | u :: o => match pick u batch with
@@ -190,9 +210,19 @@ Fixpoint reorder (order : list N) (batch : list scqe) : list scqe :=
               end
   end.
 
-Definition promote (r : ring) (now : N) (order : list N) : ring :=
+(* `order` describes the ready queue from its current head: the keys that
+   belong to entries already queued are consumed first (one key per entry). *)
+Fixpoint drop_key (e : scqe) (order : list (N * Z)) : list (N * Z) :=
+  match order with
+  | [] => []
+  | k :: t => if exact k e || loose k e then t else k :: drop_key e t
+  end.
+Definition consume (rdy : list scqe) (order : list (N * Z)) : list (N * Z) :=
+  fold_left (fun o e => drop_key e o) rdy order.
+
+Definition promote (r : ring) (now : N) (order : list (N * Z)) : ring :=
   let '(infl, matured) := promote_loop (length (inflight r)) now 0 (inflight r) [] in
-  set_ready (set_inflight r infl) (ready r ++ reorder order matured).
+  set_ready (set_inflight r infl) (ready r ++ reorder (consume (ready r) order) matured).
 
 (* What a completion-queue iteration yields: the CQE (ud, result), the bytes a
    read put into its buffer, and ghost data (sid, the instant it was scheduled
@@ -208,7 +238,7 @@ Inductive robs :=
 
 Inductive rv :=
 | Push (e : sqe) | Submit (now : N) (lats : list N) | CqNew | Sync (now : N)
-| Next (now : N) (order : list N) | Readable (now : N).
+| Next (now : N) (order : list (N * Z)) | Readable (now : N).
 
 (* ghost: the accepted records of a submit, computed alongside submit_entries *)
 Definition acc_one (sid now : N) (lats : list N) (e : sqe) : acc * list N :=
@@ -239,7 +269,7 @@ Definition exec (fs : FS A) (a : apply) : FS A * Z * list N :=
                  else (fs, EBADF, [])
   end.
 
-Definition next (r : ring) (fs : FS A) (now : N) (order : list N) : ring * FS A * option yield :=
+Definition next (r : ring) (fs : FS A) (now : N) (order : list (N * Z)) : ring * FS A * option yield :=
   if visible r =? 0 then (r, fs, None)
   else
     let r1 := promote r now order in
